@@ -57,7 +57,7 @@ CHECKS = {
          "Every string of length <= 5 (quick) / <= 6 (thorough) over a 23-symbol alphabet covering every token class, all concatenations of <= 2/3 of 270 token fragments, and random fragment concatenations: tokens must tile the text, agree with the reference lexer in kind/payload/extent and carry exact line/column ranges. One open finding (a `D.` numeral before certain non-ASCII characters) is excluded by signature.",
          "trusted: the reference lexer's reading of the documented token regexes; the extent of Error tokens is only loosely constrained"),
  "C18": ("model-based (stateful) testing: generated operation histories on lists/dicts/sets/Maybe/math rendered as Sylt programs vs Rust model containers",
-         "Histories of up to 40 operations over int/str/tuple elements and keys are rendered as one program that prints an observation after each operation; printed lines must equal the model's (Vec/BTreeMap/BTreeSet/Option). Two open findings (tostring-keyed dict/set collisions) are excluded by signature; inputs whose contract the docs leave open are excluded and counted.",
+         "Histories of up to 40 operations over int/str/tuple elements and keys are rendered as one program that prints an observation after each operation; printed lines must equal the model's (Vec/BTreeMap/BTreeSet/Option). Pairs of distinct tuple keys that print the same text are planted (former findings, repaired); inputs whose contract the docs leave open are excluded and counted.",
          "trusted: the model's reading of the std signatures; mini-Lua"),
  "C19": ("differential testing of composite-value operators against a structural model + algebraic laws on observed booleans",
          "Random nested types (tuples, lists, blobs, enums) with 2-3 biased values: every admitted operator is printed and compared with a structural model; reflexivity, symmetry, complement, trichotomy, transitivity are checked on the observed results independently of the model.",
